@@ -140,6 +140,13 @@ Definition op_swap_stale (i : nat) (d : doc) : doc := mkDoc (mode d) (swap_at i 
    psd[i+1] exists. *)
 Definition op_swap (i : nat) (d : doc) : doc :=
   if (S i <? length (lay d))%nat then mkDoc (mode d) (compute (mode d) (swap_at i (lay d))) else d.
+(* ANY structural edit through the public API (append, extend, insert, remove, pop, clear, del, item
+   assignment, move_to_group, delete_layer, Group.new(parent=..), group_layers ...) ends in
+   GroupMixin._update_psd_record, which calls psd._compute_clipping_layers().  What the mutator did to
+   order and membership is not modelled here (C09's model): the new forest [f'] - with whatever stored
+   fields its layers still carry from before - is given, the code recomputes. *)
+Definition recompute (m : compat) (f' : aforest) : doc := mkDoc m (compute m f').
+
 (* opening a document *)
 Definition open_clip (m : compat) (f : cforest) : doc := mkDoc m (compute m (map fresh_t f)).
 
